@@ -254,10 +254,13 @@ def ia32_retn(obj, iw):
 @ispec_ia32("*>[ {68} ~data(*) ]", mnemonic="PUSH", type=type_data_processing)
 def ia32_imm32(obj, data):
     size = obj.misc["opdsz"] or 32
+    W, R, X, B = getREX(obj)
+    if W == 1:
+        # REX.W takes precedence over the 66 prefix
+        size = 32
     if data.size < size:
         raise InstructionError(obj)
     imm = data[0:size]
-    W, R, X, B = getREX(obj)
     xsize = 64 if W == 1 else size
     obj.operands = [env.cst(imm.int(), size).signextend(xsize)]
     obj.bytes += pack(imm)
@@ -267,6 +270,10 @@ def ia32_imm32(obj, data):
 @ispec_ia32("*>[ {e9} ~data(*) ]", mnemonic="JMP", type=type_control_flow)
 def ia32_imm_rel(obj, data):
     size = immsz = obj.misc["opdsz"] or 64
+    W, R, X, B = getREX(obj)
+    if W == 1:
+        # REX.W takes precedence over the 66 prefix
+        size = 64
     if size == 64:
         immsz = 32
     if data.size < immsz:
@@ -495,7 +502,9 @@ def ia32_eax_imm(obj, data):
     size = immsz = obj.misc["opdsz"] or 32
     W, R, X, B = getREX(obj)
     if W == 1:
+        # REX.W takes precedence over the 66 prefix
         size = 64
+        immsz = 32
     if data.size < immsz:
         raise InstructionError(obj)
     imm = data[0:immsz]
